@@ -71,6 +71,8 @@ class Fn:
                 return fhex(math.pi), "float"
             if isinstance(e, ast.Attribute):
                 return self.attribute(e, env)
+            if isinstance(e, ast.Call):  # cast(T, x)
+                return self.expr(e.args[1], env)
             raise Unsupported(f"unknown name {c}")
         if isinstance(e, ast.Attribute):
             return self.attribute(e, env)
@@ -502,6 +504,7 @@ def main(repo: Path, out: Path):
     )
     main_loops(repo, out)
     main_arrays(repo, out)
+    main_slot(repo, out)
 
 
 class TruthyFn(Fn):
@@ -875,6 +878,249 @@ def main_arrays(repo: Path, out: Path):
         "(** GENERATED by translate/tr_pure.py from Channel.validate_pulse / DMM.validate_pulse - do not edit.\n"
         "    numpy reductions are read through the sample summary the model is given (see translate/tr_pure.py, ArrFn). *)\n"
         "From Coq Require Import ZArith Bool.\nFrom Coq Require Import PrimFloat.\nFrom PV Require Import Model.Base.\nOpen Scope Z_scope.\n\n" + "\n".join(defs)
+    )
+
+
+class SlotFn(LoopFn):
+    """adds what _Schedule.make_next_pulse_slot needs: a local helper function (inlined at its
+    calls), `max(a, *xs)`, an optional drift record, `try: x = <search>() ... except RuntimeError:
+    pass`, assignments from calls that may raise, bool-as-int in a product, the rebuilt Pulse
+    (only its phase matters here: Pulse.__init__ stores phase % 2pi), and the returned time slot as
+    the triple (ti, tf, phase of the scheduled pulse)."""
+
+    CHOBJ = LoopFn.CHOBJ + ("ch_obj",)
+
+    def __init__(self, *a):
+        super().__init__(*a)
+        self.localfuns = {}
+        self.ret_override = None
+
+    def custom_call(self, e, env):
+        f = ast.unparse(e.func)
+        if f not in ("self._find_add_delay", "self[channel].last_pulse_slot", "self[channel].adjust_duration", "self._check_duration"):
+            return None
+        kws = {k.arg: k.value for k in e.keywords}
+        c, _ = env["self[channel]"]
+        if f == "self._find_add_delay" and len(e.args) == 3 and ast.unparse(e.args[1]) == "channel" and ast.unparse(e.args[2]) == "protocol":
+            t0_ = self.expr(e.args[0], env)[0]
+            wfa = env["protocol == 'wait-for-all'"][0]
+            return f"(gen_find_add_delay {env['self.items()'][0]} {t0_} {env['channel'][0]} (s_tg {env['self[channel][-1]'][0]}) {wfa})", "Z"
+        args = [self.expr(a, env)[0] for a in e.args]
+        if f == "self[channel].last_pulse_slot" and not args and set(kws) == {"ignore_detuned_delay"}:
+            return f"(gen_last_pulse_slot (ch_slots {c}) {self.truth(kws['ignore_detuned_delay'], env)})", "res slot"
+        if f == "self[channel].adjust_duration" and len(args) == 1 and not kws:
+            return f"(gen_adjust_duration (c_min (ch_cfg {c})) (c_max (ch_cfg {c})) (c_clock (ch_cfg {c})) {args[0]})", "res Z"
+        if f == "self._check_duration" and len(args) == 2 and not kws:
+            return f"(gen_check_duration {env['self.max_duration'][0]} {args[0]} {args[1]})", "res unit"
+        return None
+
+    def attribute(self, e, env):
+        o, to = self.expr(e.value, env)
+        if (to, e.attr) == ("slottype", "phase"):
+            p_ = self.var("p")
+            return f"(match s_kind {o} with KPulse {p_} => p_phase {p_} | _ => zero end)", "float"
+        if (to, e.attr) == ("chanobj", "phase_jump_time"):
+            return f"(c_pj (ch_cfg {o}))", "Z"
+        return super().attribute(e, env)
+
+    def expr(self, e, env):
+        if ast.unparse(e) in env:
+            return env[ast.unparse(e)]
+        if isinstance(e, ast.Call):
+            f = ast.unparse(e.func)
+            if f == "pm.AbstractArray" and len(e.args) == 1 and not e.keywords:
+                return self.expr(e.args[0], env)
+            if f in self.localfuns and not e.keywords:
+                fn = self.localfuns[f]
+                if len(fn.args.args) != len(e.args):
+                    raise Unsupported("local function called with another number of arguments")
+                env2 = dict(env)
+                for a, v in zip(fn.args.args, e.args):
+                    env2[a.arg] = self.expr(v, env)
+                saved = self.ret_override, self.loops
+                self.ret_override, self.loops = "any", []
+                body = self.block(fn.body, env2)
+                t = self.last_ret_type
+                self.ret_override, self.loops = saved
+                return f"({body})", t
+            if f == "max" and any(isinstance(a, ast.Starred) for a in e.args):
+                if len(e.args) != 2 or not isinstance(e.args[1], ast.Starred):
+                    raise Unsupported("max with a starred argument other than max(a, *xs)")
+                a, ta = self.expr(e.args[0], env)
+                xs, tx = self.expr(e.args[1].value, env)
+                if ta != "Z" or tx != "listZ":
+                    raise Unsupported("max(a, *xs) on non-integers")
+                return f"(fold_left Z.max {xs} {a})", "Z"
+            if isinstance(e.func, ast.Attribute) and e.func.attr == "calc_phase_drift" and len(e.args) == 1:
+                d, td = self.expr(e.func.value, env)
+                if td != "drift":
+                    raise Unsupported("calc_phase_drift of a possibly missing drift record")
+                a, ta = self.expr(e.args[0], env)
+                return f"(gen_calc_phase_drift (dr_rate {d}) (dr_ti {d}) {a})", "float"
+            r = self.custom_call(e, env)
+            if r is not None:
+                return r
+        if isinstance(e, ast.IfExp):
+            # `a if X else b` with X optional: like `a if X is not None else b`
+            c = ast.unparse(e.test)
+            if c in env and env[c][1].startswith("opt"):
+                a, ta = env[c]
+                x = self.var(c.split(".")[-1])
+                env2 = dict(env)
+                env2[c] = (x, ta[3:])
+                s_, ts = self.expr(e.body, env2)
+                n_, tn = self.expr(e.orelse, env)
+                if {ts, tn} == {"float", "Z"}:
+                    conv = lambda v: "zero" if v == "(0)%Z" else f"(f_of_Z {v})"  # noqa: E731
+                    s_, n_ = (s_ if ts == "float" else conv(s_)), (n_ if tn == "float" else conv(n_))
+                    ts = tn = "float"
+                if ts != tn:
+                    raise Unsupported("conditional expression with branches of different types")
+                return f"(match {a} with None => {n_} | Some {x} => {s_} end)", ts
+        if isinstance(e, ast.BinOp) and isinstance(e.op, ast.Mult):
+            a, ta = self.expr(e.left, env)
+            b, tb = self.expr(e.right, env)
+            if ta == "Z" and tb == "bool":
+                return f"({a} * (if {b} then 1 else 0))", "Z"  # True == 1, False == 0
+        return super().expr(e, env)
+
+    def block(self, stmts, env, rest=None):
+        if stmts:
+            s, tail = stmts[0], stmts[1:]
+            nxt = lambda env2: self.block(tail, env2, rest)  # noqa: E731
+            if isinstance(s, ast.FunctionDef):
+                self.localfuns[s.name] = s
+                return nxt(env)
+            if isinstance(s, ast.Return) and self.ret_override == "any":
+                a, ta = self.expr(s.value, env)
+                self.last_ret_type = ta
+                return a
+            if isinstance(s, ast.Return) and isinstance(s.value, ast.Call) and ast.unparse(s.value.func) == "_TimeSlot":
+                a = s.value.args
+                if len(a) != 4 or ast.unparse(a[0]) != "pulse" or ast.unparse(a[3]) != "last.targets":
+                    raise Unsupported("time slot built from something other than (pulse, ti, tf, last.targets)")
+                ti, t1 = self.expr(a[1], env)
+                tf, t2 = self.expr(a[2], env)
+                if (t1, t2) != ("Z", "Z"):
+                    raise Unsupported("non-integer slot times")
+                return f"Ok ({ti}, {tf}, {env['pulse.phase'][0]})"
+            if isinstance(s, ast.Assign) and len(s.targets) == 1 and isinstance(s.targets[0], ast.Name):
+                x = s.targets[0].id
+                if x == "pulse" and isinstance(s.value, ast.Call) and ast.unparse(s.value.func) == "Pulse":
+                    kws = {k.arg: k.value for k in s.value.keywords}
+                    if s.value.args or set(kws) != {"amplitude", "detuning", "phase", "post_phase_shift"} or any(
+                        ast.unparse(kws[k]) != "pulse." + k for k in ("amplitude", "detuning", "post_phase_shift")):
+                        raise Unsupported("Pulse rebuilt with something other than a new phase")
+                    ph, tp = self.expr(kws["phase"], env)
+                    if tp != "float":
+                        raise Unsupported("non-float phase")
+                    y = self.var("pulse_phase")
+                    env2 = dict(env)
+                    env2["pulse.phase"] = (y, "float")
+                    return f"let {y} := (gen_phase_format {ph}) in\n  {nxt(env2)}"
+                if isinstance(s.value, ast.Call):
+                    a, ta = self.expr(s.value, env)
+                    if ta.startswith("res ") and ta != "res unit":
+                        if not self.spec["ret"].startswith("res "):
+                            raise Unsupported("call that may raise in a total function")
+                        er = self.var("err")
+                        env2 = dict(env)
+                        env2[x] = (x, {"Z": "Z", "slot": "slot"}[ta[4:]])
+                        return f"match {a} with\n  | Err {er} => Err {er}\n  | Ok {x} =>\n  {nxt(env2)}\n  end"
+            if isinstance(s, ast.Expr) and isinstance(s.value, ast.Call):
+                r = None
+                try:
+                    r = self.custom_call(s.value, env)
+                except KeyError:
+                    r = None
+                if r is not None and r[1] == "res unit":
+                    er = self.var("err")
+                    return f"match {r[0]} with\n  | Err {er} => Err {er}\n  | Ok _ =>\n  {nxt(env)}\n  end"
+            if isinstance(s, ast.Try):
+                ok = (
+                    s.body
+                    and isinstance(s.body[0], ast.Assign)
+                    and isinstance(s.body[0].value, ast.Call)
+                    and len(s.handlers) == 1
+                    and isinstance(s.handlers[0].type, ast.Name)
+                    and s.handlers[0].type.id == "RuntimeError"
+                    and len(s.handlers[0].body) == 1
+                    and isinstance(s.handlers[0].body[0], ast.Pass)
+                    and not s.orelse
+                    and not s.finalbody
+                )
+                if ok:
+                    a, ta = self.expr(s.body[0].value, env)
+                    if ta == "res slot":
+                        # only the search can raise (RuntimeError: nothing found); the rest of the
+                        # try body must be free of calls that may raise
+                        for st_ in s.body[1:]:
+                            for m in ast.walk(st_):
+                                if isinstance(m, ast.Call) and self.custom_call_safe(m, env):
+                                    raise Unsupported("a second call that may raise inside the try body")
+                        x = s.body[0].targets[0].id
+                        env2 = dict(env)
+                        env2[x] = (x, "slot")
+                        after = lambda e3: self.block(tail, e3, rest)  # noqa: E731
+                        found = self.block(s.body[1:], env2, after)
+                        return f"match {a} with\n  | Err _ => ({after(env)})\n  | Ok {x} => ({found})\n  end"
+        return super().block(stmts, env, rest)
+
+    def custom_call_safe(self, m, env):
+        try:
+            r = self.custom_call(m, env)
+        except Exception:  # noqa: BLE001
+            return False
+        return r is not None and r[1].startswith("res ")
+
+    def definition(self):
+        sp = self.spec
+        env = {}
+        for py, (cq, ty) in sp["params"].items():
+            env[py] = (cq, ty)
+        for py, (cq, ty) in sp.get("exprs", {}).items():
+            env[py] = (cq, ty)
+        seen = []
+        for py, (cq, ty) in sp["params"].items():
+            if cq not in [c for c, _ in seen]:
+                seen.append((cq, ty))
+        tyc = dict(COQTY, optdrift="option drift", drift="drift")
+        body = self.block(self.node.body, env)
+        ps = " ".join(f"({c} : {tyc[t]})" for c, t in seen)
+        notes = "".join(f"(* {n} *)\n" for n in dict.fromkeys(self.notes))
+        return "\n".join(self.aux) + f"(** {sp['file']} : {sp['qual']} *)\n{notes}Definition {sp['coq']} {ps} : {sp['ret']} :=\n  {body}.\n"
+
+
+SLOT_SPECS = [
+    dict(file="pulser-core/pulser/sequence/_schedule.py", qual="_Schedule.make_next_pulse_slot", coq="gen_make_next_pulse_slot",
+         ret="res (Z * Z * float)",
+         params={"self.items()": ("chs", "listchan"), "self[channel]": ("c", "chan"), "self[channel][-1]": ("last", "slot"),
+                 "channel": ("channel", "Z"), "phase_barrier_ts": ("phase_barrier_ts", "listZ"),
+                 "nodelay": ("nodelay", "bool"), "protocol == 'wait-for-all'": ("wfa", "bool"),
+                 "phase_drift_params": ("phase_drift_params", "optdrift"),
+                 "pulse.phase": ("pulse_phase", "float"), "pulse.duration": ("pulse_duration", "Z"),
+                 "self.max_duration": ("max_duration", "optZ"), "block_over_max_duration": ("block_over_max_duration", "bool")},
+         exprs={"protocol != 'no-delay'": ("(negb nodelay)", "bool")}),
+]
+
+
+def main_slot(repo: Path, out: Path):
+    trees = {}
+    defs = []
+    for sp in SLOT_SPECS:
+        p = repo / sp["file"]
+        tree = trees.setdefault(str(p), ast.parse(p.read_text()))
+        node = find(tree, sp["qual"])
+        fn = SlotFn(sp, node, {}, {})
+        try:
+            defs.append(fn.definition())
+        except Unsupported as e:
+            raise ValueError(f"translator cannot express {sp['qual']} ({sp['file']}): {e}") from e
+    (out / "PureSlot.v").write_text(
+        "(** GENERATED by translate/tr_pure.py from _Schedule.make_next_pulse_slot - do not edit.\n"
+        "    The scheduled slot is returned as (ti, tf, phase of the scheduled pulse). *)\n"
+        "From Coq Require Import ZArith Bool List.\nFrom Coq Require Import PrimFloat.\n"
+        "From PV Require Import Model.Base Model.Sched Gen.Pure Gen.PureLoops.\nOpen Scope Z_scope.\n\n" + "\n".join(defs)
     )
 
 
